@@ -24,3 +24,9 @@ claim('C16', 'ast writer/reader/schema table agreement (isinstance chain vs oneo
       'writer-reader tables agree; C16.d constants append paired with index registration under a failed lookup; C16.d2 constants keyed '
       'by the domain object; C16.e/e2 attribute coverage of writer and reader',
       'float32 rounding, bit-packing arithmetic of results, unit conversion arithmetic of sweeps, device-spec semantics, v1 format')
+claim('C05', 'path-sensitive typestate analysis (cache / placement-cache states per circuit variable, with method summaries), reaching definitions, who-may-write and sibling-coherence rules over circuit.py / moment.py / frozen_circuit.py',
+      'C05.a no path leaves a Circuit summary cache stale; C05.b _mutated resets every lazily filled field; C05.c no path leaves a live placement cache '
+      'out of step with the moments (self and locally built circuits); C05.e one conflict relation at all five sites and complete index update; '
+      'C05.f Moment indexes written together with combined key caches; C05.g who-may-write circuit/moment storage (foreign stores must be followed by _mutated); '
+      'C05.h batch edits all-or-nothing',
+      'that insertion indices equal what each strategy documents, zip/concat_ragged/factorize arithmetic, query results on consistent data')
